@@ -529,22 +529,25 @@ func (p Sqlite) UpdateContactPoint(contact *alertutils.Contact) error {
 		return err
 	}
 
-	// the lists of the request replace the stored ones, also when they are empty
-	err = p.db.Model(&alertutils.Contact{ContactId: contact.ContactId}).Association("Slack").Clear()
-	if err != nil {
-		err = fmt.Errorf("UpdateContactPoint: unable to update contact : %v, Error=%+v", contact.ContactName, err)
-		log.Error(err.Error())
-		return err
-	}
-	err = p.db.Model(&alertutils.Contact{ContactId: contact.ContactId}).Association("Webhook").Clear()
+	// the lists of the request replace the stored ones, also when they are empty;
+	// one transaction, so that a failing save does not leave the contact without its lists
+	err = p.db.Transaction(func(tx *gorm.DB) error {
+		err := tx.Model(&alertutils.Contact{ContactId: contact.ContactId}).Association("Slack").Clear()
+		if err != nil {
+			return err
+		}
+		err = tx.Model(&alertutils.Contact{ContactId: contact.ContactId}).Association("Webhook").Clear()
+		if err != nil {
+			return err
+		}
+		result := tx.Session(&gorm.Session{FullSaveAssociations: true}).Save(&contact)
+		if result.Error != nil && result.RowsAffected != 1 {
+			return result.Error
+		}
+		return nil
+	})
 	if err != nil {
 		err = fmt.Errorf("UpdateContactPoint: unable to update contact: %v, Error=%+v", contact.ContactName, err)
-		log.Error(err.Error())
-		return err
-	}
-	result := p.db.Session(&gorm.Session{FullSaveAssociations: true}).Save(&contact)
-	if result.Error != nil && result.RowsAffected != 1 {
-		err := fmt.Errorf("UpdateContactPoint: unable to update contact: %v, Error=%+v", contact.ContactName, err)
 		log.Error(err.Error())
 		return err
 	}
